@@ -209,6 +209,25 @@ def run_tree_property(pid, prop_file, tier, seed, want, extra=None):
 
         vlib.differential(rep, binary, texts, sdir, "tree", canon=canon, oracle=oracle, nontrivial=nontrivial, model_cases=[T.model_text(x) for x in texts],
                           clause=lambda c: "tree:d%s:mode%s" % (c.split()[1], c.split()[5]))
+        # the automatic block size overridden by the TBFMM_BLOCK_SIZE environment variable (documented; C08's quantifier)
+        if hc > 0 and "structure" in want:
+            for envB in (1, 3, 100):
+                ecases = []
+                for tc in T.gen_random(rng, 25 if tier == "quick" else 400, 200):
+                    tc.B = -hc
+                    ecases.append(tc.text())
+                def eoracle(c, line, envB=envB):
+                    tc = T.parse_case(c); tc.B = envB
+                    try:
+                        dump = T.parse_dump(line.split(" || ")[0])
+                    except Exception as e:
+                        return "unparsable dump: %s" % e
+                    m = T.oracle_structure(tc, dump) or T.oracle_placement(tc, dump)
+                    return ("with TBFMM_BLOCK_SIZE=%d: %s" % (envB, m)) if m else None
+                def mtext(x, envB=envB):
+                    f = x.split(); f[4] = str(envB); return " ".join(f)
+                vlib.differential(rep, binary, ecases, sdir, "env%d" % envB, canon=canon, oracle=eoracle, model_cases=[mtext(x) for x in ecases],
+                                  clause=lambda c: "tree:env-block-size", impl_env=dict(vlib.SAN_ENV, TBFMM_BLOCK_SIZE=str(envB)))
         rep.coverage["rule"] = ("occupancy-exhaustive small trees (every non-empty subset of leaves x every block size x both grouping modes) + random structured trees "
                                 "(d=1..4, uniform/clustered/corner/single-leaf/faces/lattice, B in {1,2,3,5,8,n/2,n,n+1,1000,1e7}); non-trivial = height>=3 and >=2 groups at some level; distinct by case text. "
                                 "exhaustive family: %d cases" % nexh)
